@@ -165,10 +165,18 @@ def strip(n, casts=True):
             n = inner[0] if k != 'SubstNonTypeTemplateParmExpr' else inner[-1]
             continue
         if casts and k in ('CStyleCastExpr', 'CXXStaticCastExpr', 'CXXFunctionalCastExpr') and n.get('castKind') == 'NoOp':
-            n = n['inner'][0]
+            c = n['inner'][0]
+            # clang models static_cast<int>(d) as an explicit NoOp cast around an implicit
+            # conversion marked isPartOfExplicitCast: that is a value-changing cast
+            if c.get('kind') == 'ImplicitCastExpr' and c.get('isPartOfExplicitCast') and c.get('castKind') not in BENIGN_CASTS:
+                return n
+            n = c
             continue
         return n
     return n
+
+
+BENIGN_CASTS = ('NoOp', 'LValueToRValue', 'ArrayToPointerDecay', 'FunctionToPointerDecay', 'NullToPointer', 'DerivedToBase', 'UncheckedDerivedToBase', 'ConstructorConversion', 'UserDefinedConversion')
 
 
 def parent(n):
@@ -258,7 +266,10 @@ class Unit:
                 i = n.get('id')
                 k = n.get('kind')
                 if i and k and k.endswith('Decl'):
-                    self.by_id.setdefault(i, n)
+                    old = self.by_id.get(i)
+                    # brief references (e.g. the specialisation list of a template) carry no children
+                    if old is None or ('inner' not in old and 'inner' in n):
+                        self.by_id[i] = n
                 if k in FUNC_KINDS:
                     self.all_functions.append(n)
                     if body_of(n) is not None:
@@ -796,6 +807,9 @@ def canon(n, unit=None, names=None):
     if k in ('CStyleCastExpr', 'CXXStaticCastExpr', 'CXXFunctionalCastExpr', 'CXXReinterpretCastExpr', 'CXXConstCastExpr', 'ImplicitCastExpr'):
         inner = canon(n['inner'][0], unit, names) if n.get('inner') else '?'
         ck = n.get('castKind')
+        c0 = n['inner'][0] if n.get('inner') else {}
+        if ck == 'NoOp' and c0.get('kind') == 'ImplicitCastExpr' and c0.get('isPartOfExplicitCast') and c0.get('castKind') not in BENIGN_CASTS:
+            return '(%s)%s' % (dtype(n), inner)
         if ck in ('IntegralCast', 'NoOp', 'LValueToRValue', 'BitCast', 'ArrayToPointerDecay', 'FunctionToPointerDecay', 'DerivedToBase', 'UncheckedDerivedToBase'):
             if ck == 'IntegralCast':
                 return '(%s)%s' % (dtype(n), inner)
